@@ -157,6 +157,9 @@ static size_t s_sample_len;
 static int s_samples_done;
 static FILE *s_samples_file;
 static FILE *s_viol_file;
+static char s_seen_keys[64][160];
+static uint64_t s_seen_counts[64];
+static int s_nseen_keys;
 static FILE *s_notes_file;
 static volatile uint64_t *s_progress; /* [0]=case index, [1]=state (1 in case, 2 finished) */
 static struct timespec s_t0;
@@ -426,6 +429,19 @@ void mon_violation(const char *key, const char *fmt, ...) {
     vsnprintf(detail, sizeof(detail), fmt, ap);
     va_end(ap);
     pthread_mutex_lock(&s_mon_lock);
+    /* one record per violation key and process: a recurring (possibly known) finding must not exhaust the
+     * per-process violation budget and hide other keys; repeats are only counted */
+    for (int i = 0; i < s_nseen_keys; ++i) {
+        if (!strcmp(s_seen_keys[i], key)) {
+            ++s_seen_counts[i];
+            pthread_mutex_unlock(&s_mon_lock);
+            return;
+        }
+    }
+    if (s_nseen_keys < MAX_VIOL_KEPT) {
+        snprintf(s_seen_keys[s_nseen_keys], sizeof(s_seen_keys[0]), "%s", key);
+        s_seen_counts[s_nseen_keys++] = 1;
+    }
     ++s_violations;
     if (s_violations <= MAX_VIOL_KEPT && s_viol_file) {
         fprintf(s_viol_file, "{\"case\":%llu,\"key\":", (unsigned long long)s_cur_case);
@@ -524,6 +540,12 @@ int mon_finish(void) {
         fprintf(f, "%s", i ? "," : "");
         json_str(f, s_counters[i].name);
         fprintf(f, ":%llu", (unsigned long long)s_counters[i].value);
+    }
+    fputs("},\"violation_keys\":{", f);
+    for (int i = 0; i < s_nseen_keys; ++i) {
+        fprintf(f, "%s", i ? "," : "");
+        json_str(f, s_seen_keys[i]);
+        fprintf(f, ":%llu", (unsigned long long)s_seen_counts[i]);
     }
     fputs("},\"max_counters\":[", f);
     first = true;
